@@ -26,7 +26,7 @@ version templates, `do_snapshot` and the log record format are exactly the ones 
 theorem source_pinned :
     SnapshotSrc.regexes = regexTexts ∧ SnapshotSrc.handlers = regexHandlers ∧
     SnapshotSrc.reDataSrc = "self._bytes = bytes(bytearray([int(b.strip()[1:-1], 16) for b in groups[0].split(',')]))" ∧
-    SnapshotSrc.reDataSegmentSrc = "data = groups[0].replace(\"'\", '\\\\x27'); bytes_ = ast.literal_eval(f\"b'{data}'\"); self._status_block_handler.handle(bytes_, None); self._status_block_segments.append(self._status_block_handler.data); if self._status_block_handler.next == 0:     self._bytes = b''.join(self._status_block_segments)" ∧
+    SnapshotSrc.reDataSegmentSrc = "data = re.sub(\"\\\\\\\\.|'\", lambda m: '\\\\x27' if m.group(0) in (\"'\", \"\\\\'\") else m.group(0), groups[0], flags=re.DOTALL); bytes_ = ast.literal_eval(f\"b'{data}'\"); self._status_block_handler.handle(bytes_, None); self._status_block_segments.append(self._status_block_handler.data); if self._status_block_handler.next == 0:     self._bytes = b''.join(self._status_block_segments)" ∧
     SnapshotSrc.parseSrc = "self._lines.append(line); for fn in self._funcs:     match = re.search(fn[0], line, re.DOTALL)     if match:         fn[1](match.groups())" ∧
     SnapshotSrc.parseLogFileSrc = "snapshots = []; snapshot = None; connection = None; with open(file) as f:     for line in f:         if 'Snapshot' in line:             snapshot = GeckoSnapshot()         if snapshot:             if 'INFO' in line:                 snapshot.parse(line)             else:                 snapshots.append(snapshot)                 snapshot = None         if 'Starting spa connection handshake...' in line:             connection = GeckoSnapshot()             connection._name = 'Connection found'         if connection:             if 'Spa is connected' in line:                 connection.parse(line)                 snapshots.append(connection)                 connection = None             else:                 connection.parse(line); if snapshot is not None:     snapshots.append(snapshot); if connection is not None:     snapshots.append(connection); return snapshots" ∧
     SnapshotSrc.versionTemplates = [
@@ -46,15 +46,16 @@ theorem source_pinned :
 /-! ## the block dump -/
 
 /-- **block round trip, the regex included**: a line that carries the dump of ANY non-empty byte list after a `[`-free prefix
-(the time stamp and logger tag are) and before anything at all parses back to exactly those bytes -/
-theorem block_roundtrip_line (pfx sfx : Text) (b : Byte) (bs : List Byte) (h : pfx.all (· != '[') = true) :
+(the time stamp and logger tag are) and before white space only (the line end) parses back to exactly those bytes -/
+theorem block_roundtrip_line (pfx sfx : Text) (b : Byte) (bs : List Byte) (h : pfx.all (· != '[') = true)
+    (hs : sfx.all isSpace = true) :
     parseBlockL (pfx ++ (renderBlockL (b :: bs) ++ sfx)) = some (b :: bs) := by
   unfold parseBlockL dataLine
-  simp only [reData_block _ _ _ h, decodeHexList_renderItems]
+  simp only [reData_block _ _ _ _ h hs, decodeHexList_renderItems]
 
 /-- **block round trip**: `parseBlock (renderBlock bs) = some bs` for every byte list of any length ≥ 1 -/
 theorem block_roundtrip (b : Byte) (bs : List Byte) : parseBlock (renderBlock (b :: bs)) = some (b :: bs) := by
-  have := block_roundtrip_line [] [] b bs rfl
+  have := block_roundtrip_line [] [] b bs rfl rfl
   simpa [parseBlock, renderBlock] using this
 
 /-- the property's quantifier: every 1024-byte block -/
@@ -63,9 +64,14 @@ theorem block_roundtrip_1024 (blk : List Byte) (h : blk.length = 1024) : parseBl
   | nil => simp at h
   | cons b bs => exact block_roundtrip b bs
 
-/-- outside the quantifier (a status block is never empty): the dump `[]` of the empty list is NOT readable, the element
-parser sees one empty token and `int('', 16)` raises -/
-theorem empty_block_unreadable : dataLine (renderBlockL []) = .raises := by decide
+/-- outside the quantifier (a status block is never empty): the dump `[]` of the empty list is not matched by the block
+expression (it wants at least one item), so `_bytes` keeps its initial value `b""` -/
+theorem empty_block_not_matched : dataLine (renderBlockL []) = .noMatch := by decide
+
+/-- the block expression never fires on a line whose last visible character is not `]` - in particular not on the name
+line `.. Snapshot (<any name>)` (D14, repaired by 609eb50) and not on a `Received b'..' from (..)` record -/
+theorem block_regex_needs_closing_bracket (line : Text) (h : endsClose line = false) : dataLine line = .noMatch := by
+  unfold dataLine; rw [reData_none_of_open line h]
 
 /-! ## the version header -/
 
@@ -112,23 +118,31 @@ theorem whole_roundtrip (stamps : List Text) (hlen : stamps.length = 11) (hst : 
       fileLoop_cons _ _ _ _ _ (facts_block s10 (q s10 (by simp)) b bs)]
     simp [fileLoop, Except.map, Snap.view, Header.expected, decToNat_natToDec, hname]
 
-/-! ### outside `SafeName`: the two ways the real parser fails on a name (D14 and its STATV sibling) -/
+/-! ### outside `SafeName`: the two recorded findings -/
 
 def exHeader : Header := ⟨t!"0.4.8", t!"19.00", 88, 15, 0, 89, 11, 0, t!"inXM", 186, 3, 0, 4, 9, 9, 6⟩
 def exStamps : List Text := List.replicate 11 t!"2020-12-08 19:53:28,310"
 
-/-- D14: the name `[]` is not safe - the block expression fires on the name line and `int('', 16)` raises ValueError out of
-`parse_log_file`: the whole log becomes unreadable -/
-theorem name_brackets_fails :
-    ¬ SafeName t!"[]" ∧ parseLogFile (writeSnapshot exStamps t!"[]" exHeader [4, 0, 0x78]) = .error .valueError := by
+/-- D14 is repaired (609eb50): the name `[]` is safe and round-trips (it used to raise ValueError out of `parse_log_file`) -/
+example : SafeName t!"[]" ∧ SafeName t!"['0x100']" ∧ SafeName t!"x [,] y" := by decide
+example : (parseLogFile (writeSnapshot exStamps t!"[]" exHeader [4, 0, 0x78])).map (·.map Snap.view)
+    = .ok [exHeader.expected t!"[]" [4, 0, 0x78]] :=
+  whole_roundtrip exStamps rfl (by decide) _ (by decide) _ ⟨by decide, by decide, by decide⟩ 4 [0, 0x78]
+
+/-- recorded finding `name:struct.error:_re_data_segment`: a name that carries `STATV..</DATAS>` makes the segment handler's
+`struct.unpack` raise out of `parse_log_file` -/
+theorem name_statv_fails :
+    ¬ SafeName t!"STATV</DATAS>" ∧
+    parseLogFile (writeSnapshot exStamps t!"STATV</DATAS>" exHeader [4, 0, 0x78]) = .error .structError := by
   constructor
   · decide
   · decide +kernel
 
-/-- the same with a name that carries `STATV..</DATAS>`: the segment handler's `struct.unpack` raises -/
-theorem name_statv_fails :
-    ¬ SafeName t!"STATV</DATAS>" ∧
-    parseLogFile (writeSnapshot exStamps t!"STATV</DATAS>" exHeader [4, 0, 0x78]) = .error .structError := by
+/-- recorded finding `name:extra-records`: a name containing the handshake text opens a connection record as well -/
+theorem name_handshake_extra_record :
+    ¬ SafeName t!"Starting spa connection handshake..." ∧
+    (parseLogFile (writeSnapshot exStamps t!"Starting spa connection handshake..." exHeader [4, 0, 0x78])).map (·.length)
+      = .ok 2 := by
   constructor
   · decide
   · decide +kernel
@@ -139,50 +153,37 @@ example : SafeName t!"Heating" ∧ SafeName t!"Config version 3" ∧ SafeName t!
 
 /-! ## traffic logs -/
 
-/-
-FULL statement (what the property asks):
-  theorem segment_roundtrip (seg : List Byte) :
-      litEval (fixQuotes (escBytes (quoteOf seg) seg)) = .ok seg
-FALSE on the current tree (D13, `segment_roundtrip_fails`): when a datagram contains both quote characters CPython writes
-`\'`, which `replace("'", "\\x27")` turns into `\\x27` = a backslash followed by the three characters `x27`.
--/
-
-/-- **segment round trip (partial: `QuoteSafe`)**: every stretch `seg` of a datagram `pkt` that does not contain BOTH `'` and
-`"` is read back exactly from the text `bytes.__repr__` wrote for it -/
-theorem segment_roundtrip_partial (pkt : List Byte) (hq : QuoteSafe pkt) (seg : List Byte) (hsub : ∀ b ∈ seg, b ∈ pkt) :
-    litEval (fixQuotes (escBytes (quoteOf pkt) seg)) = .ok seg := by
-  have hall : seg.all (okByte (quoteOf pkt)) = true := by
-    rw [List.all_eq_true]; intro b hb; exact okByte_of_quoteSafe pkt hq b (hsub b hb)
-  have := litEval_escBytes _ (quoteOf_cases pkt) seg hall []
+/-- **segment round trip (FULL, since d863da2)**: every byte string is read back exactly from the text `bytes.__repr__`
+wrote for it, through the tokenising quote replacement and `ast.literal_eval` -/
+theorem segment_roundtrip (seg : List Byte) : litEval (fixQuotes (escBytes (quoteOf seg) seg)) = .ok seg := by
+  have := litEval_escBytes _ (quoteOf_cases seg) seg []
   rw [List.append_nil] at this
   rw [this]; simp [litEval, litRun, Except.map]
 
-/-- D13 witness: the two-byte segment `'"` comes back as the five bytes `\x27"` -/
-theorem segment_roundtrip_fails :
-    ¬ QuoteSafe [0x27, 0x22] ∧
-    litEval (fixQuotes (escBytes (quoteOf [0x27, 0x22]) [0x27, 0x22])) = .ok [0x5c, 0x78, 0x32, 0x37, 0x22] := by
-  constructor <;> decide
+/-- .. and so is every stretch of a datagram, whatever quote `bytes.__repr__` chose for the whole datagram -/
+theorem segment_roundtrip_in_packet (pkt seg : List Byte) : litEval (fixQuotes (escBytes (quoteOf pkt) seg)) = .ok seg := by
+  have := litEval_escBytes _ (quoteOf_cases pkt) seg []
+  rw [List.append_nil] at this
+  rw [this]; simp [litEval, litRun, Except.map]
+
+/-- the former D13 witness now round-trips: `'"` is written `b'\'"'` and read as `\x27"` = the same two bytes -/
+example : litEval (fixQuotes (escBytes (quoteOf [0x27, 0x22]) [0x27, 0x22])) = .ok [0x27, 0x22] := by decide
 
 /-- **reassembly of a chain**: the records of one transfer, in order, the last one announcing segment 0, give back the
 concatenation of the segment data -/
-theorem reassemble_chain_partial (src dst : List Byte) (recs : List Rec) (hch : Chained (recs.map (·.seg)))
+theorem reassemble_chain (src dst : List Byte) (recs : List Rec) (hch : Chained (recs.map (·.seg)))
     (hok : ∀ r ∈ recs, RecOK src dst r) :
     reassemble (recs.map (recLine src dst)) = .ok (recs.map (·.seg.data)).flatten := by
   obtain ⟨s', e, b⟩ := parseLines_chain src dst recs hch hok connInit
   unfold reassemble; rw [e]; simp [Except.map, b, connInit]
 
-/-
-FULL statement: the same without the `quotes` and `noBlockError` fields of `RecOK`.  FALSE on the current tree:
-`reassemble_fails_quotes` (D13) and `reassemble_fails_brackets` (the block expression fires on a traffic record).
--/
-
-/-- **any segmentation**: for EVERY split `parts` of the transferred range into at most 256 pieces, the in-order chain
+/-- **any segmentation (FULL: no hypothesis on the data)**: for EVERY split `parts` of the transferred range into at most 256 pieces, the in-order chain
 (idx 0,1,2.., next = idx+1, last next = 0) reassembles to the range -/
-theorem reassemble_any_segmentation_partial (src dst : List Byte) (range : List Byte) (parts : List (List Byte))
+theorem reassemble_any_segmentation (src dst : List Byte) (range : List Byte) (parts : List (List Byte))
     (hsplit : parts.flatten = range) (hne : parts ≠ []) (hcount : parts.length ≤ 256)
     (recs : List Rec) (hsegs : recs.map (·.seg) = chainFrom 0 parts) (hok : ∀ r ∈ recs, RecOK src dst r) :
     reassemble (recs.map (recLine src dst)) = .ok range := by
-  rw [reassemble_chain_partial src dst recs (by rw [hsegs]; exact chainFrom_chained 0 parts hne (by omega)) hok]
+  rw [reassemble_chain src dst recs (by rw [hsegs]; exact chainFrom_chained 0 parts hne (by omega)) hok]
   have : recs.map (·.seg.data) = parts := by
     have e : recs.map (·.seg.data) = (recs.map (·.seg)).map (·.data) := by simp [List.map_map]
     rw [e, hsegs, chainFrom_data]
@@ -214,30 +215,21 @@ example : ∀ r ∈ exRecs, RecOK exSrc exDst r := by
   intro r hr
   simp only [exRecs, List.mem_cons, List.not_mem_nil, or_false] at hr
   rcases hr with rfl | rfl
-  · exact ⟨⟨by decide, by decide, by decide, by decide⟩, by decide, by decide, by decide +kernel⟩
-  · exact ⟨⟨by decide, by decide, by decide, by decide⟩, by decide, by decide, by decide +kernel⟩
+  · exact ⟨⟨by decide, by decide, by decide, by decide, by decide, by decide⟩, by decide⟩
+  · exact ⟨⟨by decide, by decide, by decide, by decide, by decide, by decide⟩, by decide⟩
 example : Chained (exRecs.map (·.seg)) := by simp [Chained, exRecs, exSeg0, exSeg1]
 example : exRecs.map (·.seg) = chainFrom 0 [exSeg0.data, exSeg1.data] := by decide
 example : reassemble (exRecs.map (recLine exSrc exDst)) = .ok (exSeg0.data ++ exSeg1.data) := by decide +kernel
 
-/-- D13 on a whole record: one `"` (0x22) in a full 39-byte segment (whose length byte is `'`) and the reassembled block is
-not the transferred one -/
-def badSegQ : Seg := ⟨0, 0, 0x22 :: List.replicate 38 0⟩
-theorem reassemble_fails_quotes :
-    ¬ QuoteSafe (packet exSrc exDst badSegQ) ∧
-    reassemble [recLine exSrc exDst ⟨exPre, exPost, badSegQ⟩] ≠ .ok badSegQ.data := by
-  constructor
-  · decide
-  · decide +kernel
-
-/-- the block expression is tried on traffic records too: a segment whose data spells `[]` (0x5b 0x5d) makes the connection
-parse raise ValueError -/
-def badSegB : Seg := ⟨0, 0, [0x5b, 0x5d, 1, 2]⟩
-theorem reassemble_fails_brackets :
-    QuoteSafe (packet exSrc exDst badSegB) ∧
-    reassemble [recLine exSrc exDst ⟨exPre, exPost, badSegB⟩] = .error .valueError := by
-  constructor
-  · decide
-  · decide +kernel
+/-- the two records that used to break the connection parse now reassemble (instances of the theorem, and by evaluation):
+one `"` (0x22) in a full 39-byte segment whose length byte is `'` (D13), and data that spells `[]` (0x5b 0x5d) -/
+def exSegQ : Seg := ⟨0, 0, 0x22 :: List.replicate 38 0⟩
+def exSegB : Seg := ⟨0, 0, [0x5b, 0x5d, 1, 2]⟩
+example : reassemble [recLine exSrc exDst ⟨exPre, exPost, exSegQ⟩] = .ok exSegQ.data := by decide +kernel
+example : reassemble [recLine exSrc exDst ⟨exPre, exPost, exSegB⟩] = .ok exSegB.data := by decide +kernel
+example : reassemble [recLine exSrc exDst ⟨exPre, exPost, exSegB⟩] = .ok exSegB.data :=
+  reassemble_any_segmentation exSrc exDst _ [exSegB.data] rfl (by decide) (by decide) [⟨exPre, exPost, exSegB⟩] rfl
+    (by intro r hr; simp only [List.mem_cons, List.not_mem_nil, or_false] at hr; subst hr
+        exact ⟨⟨by decide, by decide, by decide, by decide, by decide, by decide⟩, by decide⟩)
 
 end GeckoModel.C19
